@@ -26,13 +26,13 @@ NONTRIVIAL = {
 
 # (family, quick K, thorough K)
 BATTERY = {
-    "C01": [("rand", 500, 30000), ("stop", 300, 10000), ("dead", 150, 6000), ("ties", 60, 448),
+    "C01": [("rand", 500, 30000), ("stop", 300, 10000), ("dead", 150, 6000), ("ties", 60, 640),
             ("tiny", 60, 324)],
-    "C04": [("rand", 500, 30000), ("stop", 300, 10000), ("ties", 120, 448), ("dead", 100, 4000),
+    "C04": [("rand", 500, 30000), ("stop", 300, 10000), ("ties", 120, 640), ("dead", 100, 4000),
             ("tiny", 60, 324)],
-    "C02": [("stop", 700, 40000), ("dead", 250, 12000), ("ties", 60, 448), ("tiny", 60, 324)],
+    "C02": [("stop", 700, 40000), ("dead", 250, 12000), ("ties", 60, 640), ("tiny", 60, 324)],
     "C03": [("dead", 400, 20000), ("rand", 400, 20000), ("stop", 200, 8000), ("tiny", 80, 324)],
-    "C05": [("stop", 700, 40000), ("dead", 200, 8000), ("ties", 120, 448)],
+    "C05": [("stop", 700, 40000), ("dead", 200, 8000), ("ties", 120, 640)],
     "C06": [("stop", 600, 30000), ("dead", 300, 20000), ("rand", 200, 8000), ("tiny", 60, 324)],
     "C14": [("stop", 800, 40000), ("dead", 250, 12000)],
     "C10": [("hist", 250, 12000)],
